@@ -791,3 +791,195 @@ def cache_key(ctx, repo, scope=("",), rule="CACHE-KEY", _self=False):
 
 NEW2 = [attr_near, dead_def, cache_key]
 GENERIC.extend(NEW2)
+
+
+# ---------------------------------------------------------------------------
+# DEAD-STORE: a computed value bound to a local that no path reads again
+# ---------------------------------------------------------------------------
+_POSITIVE["DEAD-STORE"] = '''
+def remap(privates, mapping):
+    for private in privates:
+        vsindex = getattr(private, "vsindex", None)
+        if vsindex is None:
+            continue
+        if vsindex in mapping:
+            vsindex = mapping[vsindex]
+        else:
+            del private.vsindex
+'''
+# (module, function, variable) -> why the dead store is harmless (each confirmed by reading)
+DEAD_STORE_AUDIT = {
+    ("ttLib/tables/S__i_l_f.py", "Pass.decompile", "data"): "cursor advance past the last block that is read (the debug block after it is deliberately not parsed)",
+    ("varLib/instancer/names.py", "_updateNameTableStyleRecords", "currentStyleName"): "leftover conversion: the style name is only tested for presence above, the new style name is built from the axis values",
+}
+
+
+def enclosing_def(n):
+    p = parent(n)
+    while p is not None and not isinstance(p, (ast.FunctionDef, ast.AsyncFunctionDef, ast.Lambda, ast.ClassDef)):
+        p = parent(p)
+    return p
+
+
+def _ds_candidate(st):
+    """`name = <computed>`: a single plain local target and a right-hand side that does work worth keeping"""
+    if not (isinstance(st, ast.Assign) and len(st.targets) == 1 and isinstance(st.targets[0], ast.Name)):
+        return None
+    v = st.value
+    if isinstance(v, (ast.Constant, ast.Name)) or _empty_container(v):
+        return None
+    if isinstance(v, (ast.List, ast.Tuple, ast.Dict, ast.Set)) and not any(isinstance(x, (ast.Call, ast.Subscript)) for x in ast.walk(v)):
+        return None
+    # the rebinding form `x = f(x)` / `x = table[x]`: the new value replaces the old one under the same name, so it is meant to be used
+    if not any(isinstance(x, ast.Name) and x.id == st.targets[0].id for x in ast.walk(v)):
+        return None
+    return st.targets[0].id
+
+
+def dead_store(ctx, repo, scope=("",), rule="DEAD-STORE", _self=False):
+    from ..cfg import CFG
+
+    ctx.rule(rule, "a value computed from a lookup or a call and bound to a local is read on some path before the local is rebound or the function ends; a remapped / converted value that is never read means the update meant for an object went to a temporary (stale index, unit or reference left in place)", floor=1)
+    if not _self:
+        _selfcheck(ctx, rule, dead_store)
+    for rel in sorted(repo.rels()):
+        if not _in_scope(rel, scope):
+            continue
+        m = repo.mod(rel)
+        total = 0
+        bad = []
+        for q, f in sorted(m.funcs.items()):
+            fn = f.node
+            if isinstance(fn, ast.Lambda):
+                continue
+            cands = [n for n in walk_no_nested(fn) if _ds_candidate(n)]
+            if not cands:
+                continue
+            # names that escape the flow analysis: closures, globals, locals()/vars()/eval/exec users.  An inner function
+            # that is only ever called directly reads its free variables at its call sites; one that is passed around,
+            # stored or returned (and every lambda / class body) may read them at any time.
+            escape = set()
+            dyn = False
+            inner = {}
+            for n in ast.walk(fn):
+                if n is fn:
+                    continue
+                if isinstance(n, (ast.FunctionDef, ast.AsyncFunctionDef)) and enclosing_def(n) is fn:
+                    a_ = n.args
+                    bound = {x.arg for x in a_.posonlyargs + a_.args + a_.kwonlyargs} | ({a_.vararg.arg} if a_.vararg else set()) | ({a_.kwarg.arg} if a_.kwarg else set())
+                    nl = set()
+                    for x in walk_no_nested(n):
+                        if isinstance(x, ast.Name) and isinstance(x.ctx, ast.Store):
+                            bound.add(x.id)
+                        if isinstance(x, (ast.Global, ast.Nonlocal)):
+                            nl |= set(x.names)
+                    escape |= nl
+                    if n.name in inner or n.decorator_list:
+                        escape |= {x.id for x in ast.walk(n) if isinstance(x, ast.Name)} | (inner[n.name][1] if n.name in inner else set())
+                    inner[n.name] = (n, {x.id for x in ast.walk(n) if isinstance(x, ast.Name) and isinstance(x.ctx, (ast.Load, ast.Del))} - (bound - nl))
+                elif isinstance(n, (ast.Lambda, ast.ClassDef)) or (isinstance(n, (ast.FunctionDef, ast.AsyncFunctionDef)) and enclosing_def(n) is not fn):
+                    if isinstance(n, (ast.Lambda, ast.ClassDef)):
+                        escape |= {x.id for x in ast.walk(n) if isinstance(x, ast.Name)}
+                if isinstance(n, (ast.Global, ast.Nonlocal)) and enclosing_def(n) is fn:
+                    escape |= set(n.names)
+                if isinstance(n, ast.Call) and isinstance(n.func, ast.Name) and n.func.id in ("locals", "vars", "eval", "exec"):
+                    dyn = True
+            direct = {nm: free for nm, (nd, free) in inner.items()}
+            ch = True
+            while ch:
+                ch = False
+                for nm in list(direct):
+                    refs = [x for x in ast.walk(fn) if isinstance(x, ast.Name) and x.id == nm and isinstance(x.ctx, ast.Load)]
+                    ok = True
+                    for x in refs:
+                        e = enclosing_def(x)
+                        if not (isinstance(parent(x), ast.Call) and parent(x).func is x):
+                            ok = False
+                        elif e is not fn and not (isinstance(e, (ast.FunctionDef, ast.AsyncFunctionDef)) and direct.get(e.name) is not None and inner[e.name][0] is e):
+                            ok = False  # called from a lambda / class body / an inner function that itself escapes
+                    if not ok:
+                        escape |= direct.pop(nm)
+                        ch = True
+            # free variables of a directly-called inner function include those of the inner functions it calls
+            ch = True
+            while ch:
+                ch = False
+                for nm in list(direct):
+                    for other in list(direct):
+                        if other in direct[nm] and not direct[other] <= direct[nm]:
+                            direct[nm] = direct[nm] | direct[other]
+                            ch = True
+                    for other, (nd, free) in inner.items():
+                        if other not in direct and other in direct[nm]:
+                            pass  # already in escape
+            if dyn:
+                continue
+            g = CFG(fn)
+            succ = {i: set(s) for i, s in g.succ.items()}
+            # exceptional edges: a statement in a try body may jump to that try's handlers / finally
+            for i, st in g.stmt.items():
+                if st is None:
+                    continue
+                p = parent(st)
+                child = st
+                while p is not None and p is not fn:
+                    if (isinstance(p, ast.Try) or p.__class__.__name__ == "TryStar") and any(x is child for x in p.body):
+                        for h in p.handlers:
+                            if id(h) in g.node_of:
+                                succ[i].add(g.node_of[id(h)])
+                        if p.finalbody and id(p.finalbody[0]) in g.node_of:
+                            succ[i].add(g.node_of[id(p.finalbody[0])])
+                    child, p = p, parent(p)
+            use = {}
+            kill = {}
+            for i, st in g.stmt.items():
+                if st is None:
+                    use[i], kill[i] = set(), set()
+                    continue
+                use[i] = {nm for nm, _ in _header_loads(st)}
+                for nm in list(use[i]):
+                    if nm in direct:
+                        use[i] |= direct[nm]
+                if isinstance(st, ast.AugAssign) and isinstance(st.target, ast.Name):
+                    use[i].add(st.target.id)
+                k = set()
+                if isinstance(st, (ast.Assign, ast.AnnAssign)):
+                    k = set(_stmt_defs(st))
+                    # a[i] = ..., x.y = ...: the base name is read, not killed
+                    k = {t.id for t in (st.targets if isinstance(st, ast.Assign) else [st.target]) if isinstance(t, ast.Name)} | {
+                        e.id for t in (st.targets if isinstance(st, ast.Assign) else [st.target]) if isinstance(t, (ast.Tuple, ast.List)) for e in t.elts if isinstance(e, ast.Name)}
+                kill[i] = k
+            LIVE_OUT = {i: set() for i in g.stmt}
+            changed = True
+            order = sorted(g.stmt, reverse=True)
+            while changed:
+                changed = False
+                for i in order:
+                    out = set()
+                    for s in succ.get(i, ()):
+                        out |= use[s] | (LIVE_OUT[s] - kill[s])
+                    if out != LIVE_OUT[i]:
+                        LIVE_OUT[i] = out
+                        changed = True
+            reach = g._reach(0, g.succ)
+            for st in cands:
+                name = _ds_candidate(st)
+                if name in escape or name.startswith("_") or name in ("dummy", "unused", "junk", "ignore", "ignored"):
+                    continue
+                i = g.node_of.get(id(st))
+                if i is None or i not in reach:
+                    continue
+                total += 1
+                if name in LIVE_OUT[i]:
+                    continue
+                key = (rel, q.split("#")[0], name)
+                if key in DEAD_STORE_AUDIT:
+                    ctx.ob(rule, f"{rel}:{q}", f"{name} (audited: {DEAD_STORE_AUDIT[key]})", True)
+                    continue
+                bad.append(f"{q}: `{norm(st)[:60]}` is never read afterwards")
+        if total:
+            ctx.ob(rule, f"{rel}:<module>", f"{total} computed local bindings are each read on some later path", not bad, "; ".join(bad[:4]) + (f" (+{len(bad) - 4} more)" if len(bad) > 4 else ""))
+
+
+NEW3 = [dead_store]
+GENERIC.extend(NEW3)
